@@ -442,6 +442,21 @@ func scenariosC17(tier string) []Scen {
 			}
 		}
 	}
+	db := 3
+	if tier != "quick" {
+		db = 5
+	}
+	for _, kind := range []string{"cancel", "deadline"} {
+		for _, op := range []string{"W", "R", "B"} {
+			for _, dup := range []string{"rd-parked", "closer"} {
+				if dup == "rd-parked" && op != "W" {
+					dup = "wr-parked"
+				}
+				d := c17Dup{Dup: dup, Op: op, Kind: kind}
+				out = append(out, Scen{Desc: d, Bound: db, Body: c17DupBody(d), Check: c17DupCheck(d), Obs: c17DupObs})
+			}
+		}
+	}
 	return out
 }
 
@@ -524,4 +539,160 @@ func c17SvcCheck(x *vsched.Exec) (string, string) {
 		}
 	}
 	return "", ""
+}
+
+// ---- two operations in opposite directions on one connection, and a Close racing with a cancellation
+
+type c17Dup struct {
+	Dup  string `json:"dup"`  // "rd-parked" (a read under a live context is parked, a write under the cancellable one must return) | "wr-parked" (mirror image) | "closer" (the connection is closed by another goroutine around the cancellation)
+	Op   string `json:"op"`   // the cancelled operation: W | R | B
+	Kind string `json:"kind"` // cancel | deadline
+}
+
+type c17DupState struct {
+	cRet, lRet bool
+	cErr, lErr string
+	cCtxErr    bool
+	cancelled  bool
+}
+
+func c17DupBody(d c17Dup) func() {
+	return func() {
+		w := newWorld()
+		st := &c17DupState{}
+		w.LC = st
+		peer, mine := vnet.Pipe("u")
+		mine.Cap = 2
+		mine.Write([]byte("zz")) // the pipe towards the peer is full: a write blocks until the peer reads
+		var c1 *vnet.Ctx
+		if d.Kind == "deadline" {
+			c1 = vnet.NewCtxDeadline("c1")
+		} else {
+			c1 = vnet.NewCtx("c1")
+		}
+		live := vnet.NewCtx("live")
+		conn := varlink.VerifNewCtxConn(mine)
+		run := func(op string, ctx context.Context) error {
+			var err error
+			switch op {
+			case "W":
+				_, err = conn.Write(ctx, []byte("wxyz."))
+			case "R":
+				_, err = conn.Read(ctx, make([]byte, 4))
+			case "B":
+				_, err = conn.ReadBytes(ctx, 0)
+			}
+			return err
+		}
+		started := 0
+		other := "B"
+		if d.Op != "W" {
+			other = "W"
+		}
+		if d.Dup != "closer" {
+			vsched.Go("L", func() {
+				started++
+				err := run(other, live)
+				st.lRet = true
+				if err != nil {
+					st.lErr = err.Error()
+				}
+			})
+		}
+		vsched.Go("U", func() {
+			if d.Dup != "closer" {
+				// the other direction is under way (its helper is blocked in the transport) before this one starts
+				vsched.Yield("wait-other-parked", "U", func() bool { return started == 1 && vsched.AliveNamed("conn.go:") == 1 })
+			}
+			started++
+			err := run(d.Op, c1)
+			st.cRet = true
+			if err != nil {
+				st.cErr = err.Error()
+				var ne net.Error
+				st.cCtxErr = errors.Is(err, context.Canceled) || errors.Is(err, context.DeadlineExceeded) || (errors.As(err, &ne) && ne.Timeout())
+			}
+		})
+		gate := func() bool { return started == 2 || (d.Dup == "closer" && started == 1) }
+		if d.Kind == "deadline" {
+			vsched.GoDaemon("Xctx", func() {
+				vsched.Yield("gate", "X", gate)
+				st.cancelled = true
+				c1.Expire()
+			})
+			vsched.GoDaemon("Xconn", func() {
+				vsched.Yield("gate", "X", func() bool { return gate() && mine.Armed() })
+				mine.FireDeadline()
+			})
+		} else {
+			vsched.GoDaemon("X", func() {
+				vsched.Yield("gate", "X", gate)
+				st.cancelled = true
+				c1.Cancel()
+			})
+		}
+		if d.Dup == "closer" {
+			vsched.GoDaemon("K", func() {
+				vsched.Yield("gate", "K", func() bool { return st.cancelled })
+				mine.Close()
+			})
+			return
+		}
+		// the environment lets the live operation finish once the cancelled one has returned: the peer closes (a parked
+		// read sees EOF) or drains what was written (a parked write completes)
+		vsched.GoDaemon("E", func() {
+			vsched.Yield("wait-cancelled-returned", "E", func() bool { return st.cRet })
+			if other == "W" {
+				buf := make([]byte, 64)
+				for {
+					if _, err := peer.Read(buf); err != nil || st.lRet {
+						return
+					}
+				}
+			}
+			peer.Close()
+		})
+	}
+}
+
+func c17DupObs(x *vsched.Exec) string {
+	w := worldOf(x)
+	if w == nil {
+		return "noworld"
+	}
+	st := w.LC.(*c17DupState)
+	return fmt.Sprintf("c=%v/%q l=%v/%q parked=%v", st.cRet, st.cErr, st.lRet, st.lErr, x.Parked)
+}
+
+func c17DupCheck(d c17Dup) func(x *vsched.Exec) (string, string) {
+	return func(x *vsched.Exec) (string, string) {
+		if x.Panic != "" {
+			return "panic: " + x.Panic, "panic"
+		}
+		if x.HitHorizon {
+			return "", ""
+		}
+		w := worldOf(x)
+		st := w.LC.(*c17DupState)
+		if !st.cRet {
+			return fmt.Sprintf("%s under a cancelled context never returned (%s; parked %v)", d.Op, d.Dup, x.Parked), "symptom=operation-never-returns"
+		}
+		if d.Dup != "closer" {
+			if !st.cCtxErr {
+				return fmt.Sprintf("%s was blocked when its context was cancelled but returned %q, neither a context nor a timeout error", d.Op, st.cErr), "symptom=wrong-error"
+			}
+			if !st.lRet {
+				return fmt.Sprintf("the operation in the other direction never returned although the peer let it finish (parked %v)", x.Parked), "symptom=operation-never-returns"
+			}
+			if st.lErr != "" && st.lErr != "EOF" {
+				return fmt.Sprintf("the operation in the other direction ran under a live context and failed with %q", st.lErr), "symptom=stale-deadline"
+			}
+		}
+		for _, p := range x.Parked {
+			if strings.HasPrefix(p, "conn.go:") {
+				return fmt.Sprintf("every operation has returned but a helper goroutine is parked for good: %v", x.Parked), "symptom=helper-left-behind"
+			}
+		}
+		return "", ""
+	}
 }
